@@ -524,11 +524,21 @@ class Env:
             return None
         loc = self.loc(f) if st is not None else None
         if st is None:
-            st = null
+            # absent field or unknown/negative location: the accessor hands out a default-constructed
+            # view, which has neither storage nor parameter values
+            return self._make_env(t, null, f, 0, default_view=True)
         return self._make_env(t, st, f, loc[1] if loc else 0)
 
-    def _make_env(self, ref, st, f, size_units):
+    def _elem_params_known(self, f):
+        t = f.type
+        if isinstance(t, D.ArrayT) and isinstance(t.elem, D.StructRef):
+            return all(self.eval(a) is not None for a in t.elem.args)
+        return True
+
+    def _make_env(self, ref, st, f, size_units, default_view=False):
         sd = self.m.struct(ref.name)
+        if default_view:
+            return Env(self.m, sd, {p[0]: None for p in sd.params}, st, params_ok=not sd.params, fold=self.fold)
         if sd.kind == "bits" and isinstance(st, ByteStore):
             # a bits type placed in a struct is one integer of the field's size, in the field's byte order
             st = BitStore.over_bytes(st, size_units, self._order(f))
@@ -708,6 +718,8 @@ class Env:
         loc = self.loc(f) if self.has(name) is True else None
         if loc is None or loc[1] < 0 or loc[0] < 0:
             return None
+        if not self._elem_params_known(f):
+            return None  # the element views cannot be constructed: the array accessor yields an empty view
         eunits = t.elem_bits // self.s.unit
         return loc[1] // eunits, eunits, loc
 
